@@ -22,7 +22,6 @@ theorem transferBalance_total (b b' : Bal) (src tgt : Addr) (a : Amount)
   unfold transferBalance at h
   cases a with
   | err => simp at h
-  | outside => simp at h
   | val v =>
     simp only at h
     by_cases hn : v < 0
@@ -63,36 +62,10 @@ theorem chargeGas_total (b : Bal) (src : Addr) (g : Nat) : total (chargeGas b sr
   simp only
   split
   · exact total_move b src feeAccount (get b src) (Nat.le_refl _)
-  · rename_i h; exact total_move b src feeAccount (g * gasPrice) (by omega)
+  · rename_i h; exact total_move b src feeAccount (gasCost g) (by omega)
 
 theorem deductGasFee_total (b : Bal) (src : Addr) (g : Nat) : total (deductGasFee b src g) = total b :=
   chargeGas_total b src g
-
-theorem lockStake_total (b b' : Bal) (src : Addr) (stake : Nat) (ok : Bool) (h : lockStake b src stake ok = some b') :
-    total b' + stake = total b := by
-  unfold lockStake at h
-  by_cases c : get b src < stake
-  · simp [c] at h
-  · simp only [c, if_false] at h
-    cases ok with
-    | false => simp at h
-    | true =>
-      simp only [Bool.not_true, Bool.false_eq_true, if_false, Option.some.injEq] at h
-      subst h
-      exact (subBal_ok_of_le b src stake (by omega)).2.1
-
-theorem nodeTx_total (b b' : Bal) (src : Addr) (ok : Bool) (h : nodeTx b src ok = some b') :
-    total b' + nodeFee = total b := by
-  unfold nodeTx at h
-  by_cases c : get b src < nodeFee
-  · simp [c] at h
-  · simp only [c, if_false] at h
-    cases ok with
-    | false => simp at h
-    | true =>
-      simp only [Bool.not_true, Bool.false_eq_true, if_false, Option.some.injEq] at h
-      subst h
-      exact (subBal_ok_of_le b src nodeFee (by omega)).2.1
 
 theorem refundMove_total : ∀ (l : List (Addr × Nat)) (b : Bal),
     total (refundMove b l) = total b + (l.map (·.2)).sum := by
@@ -196,17 +169,11 @@ theorem contractBefore_total (b : Bal) (t : ContractTx) : total (beforeBal (cont
           simp only
           cases strToBigInt t.value with
           | err => exact h1
-          | outside => exact h1
           | val v =>
             simp only
             split
             · exact h1
             · exact h1
-
-/-- value locked as stake by a transaction with the given outcome -/
-def lockedBy : Tx → Status → Nat
-  | .lock _ stake _, .success => stake
-  | _, _ => 0
 
 theorem execTx_mass_operator (fuel : Nat) (w : World) (src : Addr) (dataOk : Bool) (targets : List (Addr × Amount)) :
     mass (execTx fuel w (.operator src dataOk targets)).1.st = mass w.st := by
@@ -223,46 +190,6 @@ theorem execTx_mass_operator (fuel : Nat) (w : World) (src : Addr) (dataOk : Boo
       | some b2 =>
         have h2 := changeAssets_total src targets b1 b2 hc
         unfold mass; simp only; rw [h2, h1]
-
-theorem execTx_mass_lock (fuel : Nat) (w : World) (src : Addr) (n : Nat) (ok : Bool) :
-    mass (execTx fuel w (.lock src n ok)).1.st + lockedBy (.lock src n ok) (execTx fuel w (.lock src n ok)).2
-      = mass w.st := by
-  simp only [execTx]
-  cases hf : processFee w.st.bal src with
-  | none => rfl
-  | some b1 =>
-    have h1 := processFee_total _ _ _ hf
-    simp only
-    cases hl : lockStake b1 src n ok with
-    | none => simp only [lockedBy]; unfold mass; simp only; rw [h1]; rfl
-    | some b2 =>
-      have h2 := lockStake_total b1 b2 src n ok hl
-      simp only [lockedBy]; unfold mass; simp only
-      rw [← h1, ← h2]; exact Nat.add_right_comm _ _ _
-
-/-- value debited by an OperatorNode transaction and credited to nobody -/
-def nodeFeeBy : Tx → Status → Nat
-  | .node _ _, .success => nodeFee
-  | _, _ => 0
-
-/-- everything that leaves the ledger in a transaction besides self-destruct burns -/
-def outflowBy (tx : Tx) (st : Status) : Nat := lockedBy tx st + nodeFeeBy tx st
-
-theorem execTx_mass_node (fuel : Nat) (w : World) (src : Addr) (ok : Bool) :
-    mass (execTx fuel w (.node src ok)).1.st + nodeFeeBy (.node src ok) (execTx fuel w (.node src ok)).2
-      = mass w.st := by
-  simp only [execTx]
-  cases hf : processFee w.st.bal src with
-  | none => rfl
-  | some b1 =>
-    have h1 := processFee_total _ _ _ hf
-    simp only
-    cases hl : nodeTx b1 src ok with
-    | none => simp only [nodeFeeBy]; unfold mass; simp only; rw [h1]; rfl
-    | some b2 =>
-      have h2 := nodeTx_total b1 b2 src ok hl
-      simp only [nodeFeeBy]; unfold mass; simp only
-      rw [← h1, ← h2]; exact Nat.add_right_comm _ _ _
 
 theorem execTx_mass_contract (fuel : Nat) (w : World) (t : ContractTx) :
     mass (execTx fuel w (.contract t)).1.st = mass w.st := by
@@ -289,22 +216,271 @@ theorem execTx_mass_contract (fuel : Nat) (w : World) (t : ContractTx) :
       · unfold mass; simp only [revertTo]; rw [deductGasFee_total, hb]
       · unfold mass; simp only [revertTo]; rw [hb]
 
-/-- One iteration of the transaction loop: live balances + burned + outflow is invariant. -/
+/-! ### miner transactions -/
+
+theorem mass_setBal (s : St) (b : Bal) (h : total b = total s.bal) : mass ({ s with bal := b } : St) = mass s := by
+  unfold mass; simp only; rw [h]
+
+theorem mass_minerApply (s s2 : St) (src : Addr) (id typ stake : Nat) (account : Addr) (keysOk : Bool)
+    (h : minerApply s src id typ stake account keysOk = some s2) : mass s2 = mass s := by
+  unfold minerApply at h
+  split at h
+  · cases h
+  · split at h
+    · cases h
+    · split at h
+      · cases h
+      · split at h
+        · cases h
+        · rename_i hbal
+          split at h
+          · cases h
+          · rename_i hex
+            split at h
+            · cases h
+            · simp only [Option.some.injEq] at h
+              subst h
+              have hn : regGet s.reg id = none := by
+                cases hr : regGet s.reg id with
+                | none => rfl
+                | some m => simp [hr] at hex
+              have h1 := (subBal_ok_of_le s.bal src (toWei stake) (by omega)).2.1
+              have h2 := stakeSum_regSet_new s.reg
+                { id := id, account := account, stake := stake, typ := typ, visible := false } hn
+              simp only at h2
+              unfold mass
+              simp only
+              omega
+
+theorem mass_minerAdd (s s2 : St) (src : Addr) (id delta : Nat) (h : minerAdd s src id delta = some s2) :
+    mass s2 = mass s := by
+  unfold minerAdd at h
+  split at h
+  · simp only [Option.some.injEq] at h; subst h; rfl
+  · split at h
+    · cases h
+    · rename_i hbal
+      cases hg : regGet s.reg id with
+      | none => simp [hg] at h
+      | some m =>
+        simp only [hg, Option.some.injEq] at h
+        subst h
+        have hid := regGet_id s.reg id m hg
+        exact mass_stake_update s src m delta (by rw [hid]; exact hg) (by omega)
+
+theorem mass_minerRefund (code : Code) (s s2 : St) (src : Addr) (id : Nat) (amount : Option Nat) (signed : Bool)
+    (pend : Escrow) (h : minerRefund code s src id amount signed = some (s2, pend)) :
+    mass s2 + (escrowTotal pend : Int) = mass s := by
+  unfold minerRefund at h
+  split at h
+  · simp only [Option.some.injEq, Prod.mk.injEq] at h
+    obtain ⟨h1, h2⟩ := h
+    subst h1 h2
+    simp [escrowTotal]
+  · cases amount with
+    | none => simp at h
+    | some a =>
+      simp only at h
+      cases hg : getRefundStake s.reg (hasCodeIn code) id src a with
+      | none => simp [hg] at h
+      | some p =>
+        obtain ⟨r', refund, acct⟩ := p
+        simp only [hg, Option.some.injEq, Prod.mk.injEq] at h
+        obtain ⟨h1, h2⟩ := h
+        subst h1 h2
+        have h3 := getRefundStake_sum _ _ _ _ _ _ _ _ hg
+        rw [escrowTotal_single]
+        unfold mass
+        simp only
+        omega
+
+theorem mass_node_update (s : St) (src newAcct : Addr) (m' : MinerRec) (nf : Nat)
+    (hg : regGet s.reg m'.id = some m') (hle : nf ≤ get s.bal src) :
+    mass ({ s with bal := (subBal s.bal src nf).1, reg := regSet s.reg { m' with account := newAcct } } : St)
+      + (nf : Int) = mass s := by
+  have h1 := (subBal_ok_of_le s.bal src nf hle).2.1
+  have h2 := stakeSum_regSet s.reg m' { m' with account := newAcct } hg
+  simp only at h2
+  unfold mass
+  simp only
+  omega
+
+theorem mass_nodeTxWith (fee : Nat) (s s2 : St) (src newAcct : Addr) (mainOk : Bool)
+    (h : nodeTxWith fee s src newAcct mainOk = some s2) : mass s2 + (fee : Int) = mass s := by
+  unfold nodeTxWith at h
+  split at h
+  · cases h
+  · rename_i hbal
+    cases hb : byAccount s.reg src with
+    | none => simp [hb] at h
+    | some m =>
+      simp only [hb] at h
+      cases hg : regGet s.reg m.id with
+      | none => simp [hg] at h
+      | some m' =>
+        simp only [hg] at h
+        split at h
+        · cases h
+        · simp only [Option.some.injEq] at h
+          subst h
+          have hid := regGet_id s.reg m.id m' hg
+          exact mass_node_update s src newAcct m' fee (by rw [hid]; exact hg) (Nat.le_of_not_lt hbal)
+
+theorem mass_nodeTx (s s2 : St) (src newAcct : Addr) (mainOk : Bool) (h : nodeTx s src newAcct mainOk = some s2) :
+    mass s2 + (nodeFee : Int) = mass s := mass_nodeTxWith nodeFee s s2 src newAcct mainOk h
+
+theorem burned_minerApply (s s2 : St) (src : Addr) (id typ stake : Nat) (account : Addr) (keysOk : Bool)
+    (h : minerApply s src id typ stake account keysOk = some s2) : s2.burned = s.burned := by
+  unfold minerApply at h
+  repeat' split at h
+  all_goals first | (simp only [Option.some.injEq] at h; subst h; rfl) | cases h
+
+theorem burned_minerAdd (s s2 : St) (src : Addr) (id delta : Nat) (h : minerAdd s src id delta = some s2) :
+    s2.burned = s.burned := by
+  unfold minerAdd at h
+  split at h
+  · simp only [Option.some.injEq] at h; subst h; rfl
+  · split at h
+    · cases h
+    · cases hg : regGet s.reg id with
+      | none => simp [hg] at h
+      | some m => simp only [hg, Option.some.injEq] at h; subst h; rfl
+
+theorem burned_minerRefund (code : Code) (s s2 : St) (src : Addr) (id : Nat) (amount : Option Nat) (signed : Bool)
+    (pend : Escrow) (h : minerRefund code s src id amount signed = some (s2, pend)) : s2.burned = s.burned := by
+  unfold minerRefund at h
+  split at h
+  · simp only [Option.some.injEq, Prod.mk.injEq] at h; obtain ⟨h1, _⟩ := h; subst h1; rfl
+  · cases amount with
+    | none => simp at h
+    | some a =>
+      simp only at h
+      cases hg : getRefundStake s.reg (hasCodeIn code) id src a with
+      | none => simp [hg] at h
+      | some p =>
+        obtain ⟨r', refund, acct⟩ := p
+        simp only [hg, Option.some.injEq, Prod.mk.injEq] at h
+        obtain ⟨h1, _⟩ := h
+        subst h1; rfl
+
+theorem burned_nodeTx (s s2 : St) (src newAcct : Addr) (mainOk : Bool) (h : nodeTx s src newAcct mainOk = some s2) :
+    s2.burned = s.burned := by
+  unfold nodeTx nodeTxWith at h
+  generalize nodeFee = nf at h
+  split at h
+  · cases h
+  · cases hb : byAccount s.reg src with
+    | none => simp [hb] at h
+    | some m =>
+      simp only [hb] at h
+      cases hg : regGet s.reg m.id with
+      | none => simp [hg] at h
+      | some m' =>
+        simp only [hg] at h
+        split at h
+        · cases h
+        · simp only [Option.some.injEq] at h; subst h; rfl
+
+/-- value debited by an OperatorNode transaction and credited to nobody -/
+def nodeFeeBy : Tx → Status → Nat
+  | .node _ _ _, .success => nodeFee
+  | _, _ => 0
+
+/-- conserved quantity of a block in progress: `mass` of the state plus the refunds waiting in the executor context -/
+def wmass (w : World) : Int := mass w.st + (escrowTotal w.ctx.pending : Int)
+
+theorem execTx_pending_operator (fuel : Nat) (w : World) (src : Addr) (dataOk : Bool) (targets : List (Addr × Amount)) :
+    (execTx fuel w (.operator src dataOk targets)).1.ctx = w.ctx := by
+  simp only [execTx]
+  cases processFee w.st.bal src with
+  | none => rfl
+  | some b1 =>
+    simp only
+    split
+    · rfl
+    · cases changeAssets b1 src targets <;> rfl
+
+theorem execTx_pending_contract (fuel : Nat) (w : World) (t : ContractTx) :
+    (execTx fuel w (.contract t)).1.ctx.pending = w.ctx.pending := by
+  simp only [execTx]
+  cases hcb : contractBefore w.st.bal t with
+  | inl p => obtain ⟨status, b⟩ := p; rfl
+  | inr p =>
+    obtain ⟨b1, raw, v⟩ := p
+    simp only
+    cases (contractExecute w.code fuel t raw v { w.st with bal := b1 }).2.2 <;> (simp only; split <;> rfl)
+
+/-- One iteration of the transaction loop: balances + burned + stake + escrow (+ pending refunds) − excess is
+    invariant, except for the 10 RPG of a successful OperatorNode transaction. -/
 theorem execTx_mass (fuel : Nat) (w : World) (tx : Tx) :
-    mass (execTx fuel w tx).1.st + outflowBy tx (execTx fuel w tx).2 = mass w.st := by
+    wmass (execTx fuel w tx).1 + (nodeFeeBy tx (execTx fuel w tx).2 : Int) = wmass w := by
   cases tx with
   | operator src dataOk targets =>
-    have := execTx_mass_operator fuel w src dataOk targets
-    simp only [outflowBy, lockedBy, nodeFeeBy]; rw [this]; rfl
-  | lock src n ok =>
-    have := execTx_mass_lock fuel w src n ok
-    simp only [outflowBy, nodeFeeBy]; exact this
-  | node src ok =>
-    have := execTx_mass_node fuel w src ok
-    simp only [outflowBy, lockedBy]; rw [Nat.zero_add]; exact this
+    have h1 := execTx_mass_operator fuel w src dataOk targets
+    have h2 := execTx_pending_operator fuel w src dataOk targets
+    unfold wmass
+    simp only [nodeFeeBy]
+    rw [h1, h2]; simp
   | contract t =>
-    have := execTx_mass_contract fuel w t
-    simp only [outflowBy, lockedBy, nodeFeeBy]; rw [this]; rfl
+    have h1 := execTx_mass_contract fuel w t
+    have h2 := execTx_pending_contract fuel w t
+    unfold wmass
+    simp only [nodeFeeBy]
+    rw [h1, h2]; simp
+  | apply src id typ stake account keysOk =>
+    simp only [execTx]
+    cases hf : processFee w.st.bal src with
+    | none => simp [nodeFeeBy]
+    | some b1 =>
+      have hb := mass_setBal w.st b1 (processFee_total _ _ _ hf)
+      simp only
+      cases hm : minerApply { w.st with bal := b1 } src id typ stake account keysOk with
+      | none => simp only [nodeFeeBy, wmass]; rw [hb]; simp
+      | some s2 =>
+        have := mass_minerApply _ _ _ _ _ _ _ _ hm
+        simp only [nodeFeeBy, wmass]; rw [this, hb]; simp
+  | addStake src id delta =>
+    simp only [execTx]
+    cases hf : processFee w.st.bal src with
+    | none => simp [nodeFeeBy]
+    | some b1 =>
+      have hb := mass_setBal w.st b1 (processFee_total _ _ _ hf)
+      simp only
+      cases hm : minerAdd { w.st with bal := b1 } src id delta with
+      | none => simp only [nodeFeeBy, wmass]; rw [hb]; simp
+      | some s2 =>
+        have := mass_minerAdd _ _ _ _ _ hm
+        simp only [nodeFeeBy, wmass]; rw [this, hb]; simp
+  | refund src id amount signed =>
+    simp only [execTx]
+    cases hf : processFee w.st.bal src with
+    | none => simp [nodeFeeBy]
+    | some b1 =>
+      have hb := mass_setBal w.st b1 (processFee_total _ _ _ hf)
+      simp only
+      cases hm : minerRefund w.code { w.st with bal := b1 } src id amount signed with
+      | none => simp only [nodeFeeBy, wmass]; rw [hb]; simp
+      | some p =>
+        obtain ⟨s2, pend⟩ := p
+        have := mass_minerRefund _ _ _ _ _ _ _ _ hm
+        rw [hb] at this
+        simp only [nodeFeeBy, wmass]
+        rw [escrowTotal_append]
+        omega
+  | node src newAcct mainOk =>
+    simp only [execTx]
+    cases hf : processFee w.st.bal src with
+    | none => simp [nodeFeeBy]
+    | some b1 =>
+      have hb := mass_setBal w.st b1 (processFee_total _ _ _ hf)
+      simp only
+      cases hm : nodeTx { w.st with bal := b1 } src newAcct mainOk with
+      | none => simp only [nodeFeeBy, wmass]; rw [hb]; simp
+      | some s2 =>
+        have := mass_nodeTx _ _ _ _ _ hm
+        rw [hb] at this
+        simp only [nodeFeeBy, wmass]
+        omega
 
 /-! ### a failed transaction touches only the payer and the fee account -/
 
@@ -341,7 +517,6 @@ theorem contractBefore_other (b : Bal) (t : ContractTx) (a : Addr) (h1 : a ≠ t
           simp only
           cases strToBigInt t.value with
           | err => exact k
-          | outside => exact k
           | val v =>
             simp only
             split
@@ -421,20 +596,44 @@ theorem execTx_burned (fuel : Nat) (w : World) (tx : Tx) : w.st.burned ≤ (exec
       split
       · exact Nat.le_refl _
       · cases changeAssets b1 src targets <;> exact Nat.le_refl _
-  | lock src n ok =>
+  | apply src id typ stake account keysOk =>
     simp only [execTx]
     cases processFee w.st.bal src with
     | none => exact Nat.le_refl _
     | some b1 =>
       simp only
-      cases lockStake b1 src n ok <;> exact Nat.le_refl _
-  | node src ok =>
+      cases hm : minerApply { w.st with bal := b1 } src id typ stake account keysOk with
+      | none => exact Nat.le_refl _
+      | some s2 => simp only; rw [burned_minerApply _ _ _ _ _ _ _ _ hm]; exact Nat.le_refl _
+  | addStake src id delta =>
     simp only [execTx]
     cases processFee w.st.bal src with
     | none => exact Nat.le_refl _
     | some b1 =>
       simp only
-      cases nodeTx b1 src ok <;> exact Nat.le_refl _
+      cases hm : minerAdd { w.st with bal := b1 } src id delta with
+      | none => exact Nat.le_refl _
+      | some s2 => simp only; rw [burned_minerAdd _ _ _ _ _ hm]; exact Nat.le_refl _
+  | refund src id amount signed =>
+    simp only [execTx]
+    cases processFee w.st.bal src with
+    | none => exact Nat.le_refl _
+    | some b1 =>
+      simp only
+      cases hm : minerRefund w.code { w.st with bal := b1 } src id amount signed with
+      | none => exact Nat.le_refl _
+      | some p =>
+        obtain ⟨s2, pend⟩ := p
+        simp only; rw [burned_minerRefund _ _ _ _ _ _ _ _ hm]; exact Nat.le_refl _
+  | node src newAcct mainOk =>
+    simp only [execTx]
+    cases processFee w.st.bal src with
+    | none => exact Nat.le_refl _
+    | some b1 =>
+      simp only
+      cases hm : nodeTx { w.st with bal := b1 } src newAcct mainOk with
+      | none => exact Nat.le_refl _
+      | some s2 => simp only; rw [burned_nodeTx _ _ _ _ _ hm]; exact Nat.le_refl _
   | contract t =>
     simp only [execTx]
     cases hcb : contractBefore w.st.bal t with
@@ -455,39 +654,246 @@ theorem execTxs_burned (fuel : Nat) : ∀ (txs : List Tx) (w : World), w.st.burn
     simp only [execTxs]
     exact Nat.le_trans (execTx_burned fuel w t) (ih _)
 
+/-! ### the sum of balances never grows over a transaction -/
+
+theorem evmCallTop_total_le (code : Code) (fuel : Nat) (origin addr : Addr) (v : Int) (s : St) :
+    total (evmCallTop code fuel origin addr v s).1.bal ≤ total s.bal := by
+  have hm := evmCallTop_mass code fuel origin addr v s
+  unfold evmCallTop at hm ⊢
+  split
+  · exact Nat.le_refl _
+  · rename_i hg
+    simp only
+    split
+    · refine Nat.le_trans (exec_total_le _ _ _ _ _ _ _) ?_
+      simp only
+      by_cases hn : v < 0
+      · exfalso
+        have : canTransfer s.bal origin v = false := canTransfer_neg _ _ _ hn
+        have hv : (v != 0) = true := by
+          have : v ≠ 0 := by omega
+          simp [this]
+        simp [this, hv] at hg
+      · obtain ⟨n, rfl⟩ := Int.eq_ofNat_of_zero_le (Int.not_lt.mp hn)
+        have hc : (n != 0 && !canTransfer s.bal origin n) = false := by
+          by_cases z : n = 0
+          · subst z; simp
+          · have hz : ((n : Int) != 0) = true := by
+              have : (n : Int) ≠ 0 := by omega
+              simpa using this
+            rw [hz] at hg
+            have hz' : (n != 0) = true := by simpa using z
+            rw [hz']
+            simpa using hg
+        rw [total_transfer_eq s origin addr n hc]; exact Nat.le_refl _
+    · exact Nat.le_refl _
+
+theorem evmCreateTop_total_le (code : Code) (fuel : Nat) (origin : Addr) (v : Int) (init : Script) (s : St) :
+    total (evmCreateTop code fuel origin v init s).1.bal ≤ total s.bal := by
+  unfold evmCreateTop
+  split
+  · exact Nat.le_refl _
+  · rename_i hg
+    simp only
+    split
+    · refine Nat.le_trans (exec_total_le _ _ _ _ _ _ _) ?_
+      simp only
+      by_cases hn : v < 0
+      · exfalso
+        have : canTransfer s.bal origin v = false := canTransfer_neg _ _ _ hn
+        simp [this] at hg
+      · obtain ⟨n, rfl⟩ := Int.eq_ofNat_of_zero_le (Int.not_lt.mp hn)
+        have hc : (n != 0 && !canTransfer s.bal origin n) = false := by
+          simp only [Bool.and_eq_false_iff]; right; simpa using hg
+        rw [total_transfer_eq s origin (freshAddr s.fresh) n hc]; exact Nat.le_refl _
+    · exact Nat.le_refl _
+
+theorem contractExecute_total_le (code : Code) (fuel : Nat) (t : ContractTx) (raw : Nat) (v : Int) (s : St) :
+    total (contractExecute code fuel t raw v s).1.bal ≤ total s.bal := by
+  unfold contractExecute
+  simp only
+  split
+  · exact Nat.le_refl _
+  · have key : ∀ r : St × Bool, total r.1.bal ≤ total s.bal →
+        total ({ r.1 with bal := chargeGas r.1.bal t.src t.gasUsed } : St).bal ≤ total s.bal := by
+      intro r hr
+      simp only
+      rw [chargeGas_total]; exact hr
+    cases ht : t.target with
+    | none => exact key _ (evmCreateTop_total_le code fuel t.src v t.init s)
+    | some a => exact key _ (evmCallTop_total_le code fuel t.src a v s)
+
+theorem total_minerApply_le (s s2 : St) (src : Addr) (id typ stake : Nat) (account : Addr) (keysOk : Bool)
+    (h : minerApply s src id typ stake account keysOk = some s2) : total s2.bal ≤ total s.bal := by
+  unfold minerApply at h
+  repeat' split at h
+  all_goals first | (simp only [Option.some.injEq] at h; subst h; exact total_subBal_le s.bal src (toWei stake)) | cases h
+
+theorem total_minerAdd_le (s s2 : St) (src : Addr) (id delta : Nat) (h : minerAdd s src id delta = some s2) :
+    total s2.bal ≤ total s.bal := by
+  unfold minerAdd at h
+  split at h
+  · simp only [Option.some.injEq] at h; subst h; exact Nat.le_refl _
+  · split at h
+    · cases h
+    · cases hg : regGet s.reg id with
+      | none => simp [hg] at h
+      | some m => simp only [hg, Option.some.injEq] at h; subst h; exact total_subBal_le s.bal src (toWei delta)
+
+theorem bal_minerRefund (code : Code) (s s2 : St) (src : Addr) (id : Nat) (amount : Option Nat) (signed : Bool)
+    (pend : Escrow) (h : minerRefund code s src id amount signed = some (s2, pend)) : s2.bal = s.bal := by
+  unfold minerRefund at h
+  split at h
+  · simp only [Option.some.injEq, Prod.mk.injEq] at h; obtain ⟨h1, _⟩ := h; subst h1; rfl
+  · cases amount with
+    | none => simp at h
+    | some a =>
+      simp only at h
+      cases hg : getRefundStake s.reg (hasCodeIn code) id src a with
+      | none => simp [hg] at h
+      | some p =>
+        obtain ⟨r', refund, acct⟩ := p
+        simp only [hg, Option.some.injEq, Prod.mk.injEq] at h
+        obtain ⟨h1, _⟩ := h
+        subst h1; rfl
+
+theorem total_nodeTxWith_le (nf : Nat) (s s2 : St) (src newAcct : Addr) (mainOk : Bool)
+    (h : nodeTxWith nf s src newAcct mainOk = some s2) : total s2.bal ≤ total s.bal := by
+  unfold nodeTxWith at h
+  split at h
+  · cases h
+  · cases hb : byAccount s.reg src with
+    | none => simp [hb] at h
+    | some m =>
+      simp only [hb] at h
+      cases hg : regGet s.reg m.id with
+      | none => simp [hg] at h
+      | some m' =>
+        simp only [hg] at h
+        split at h
+        · cases h
+        · simp only [Option.some.injEq] at h; subst h; exact total_subBal_le s.bal src nf
+
+theorem total_nodeTx_le (s s2 : St) (src newAcct : Addr) (mainOk : Bool) (h : nodeTx s src newAcct mainOk = some s2) :
+    total s2.bal ≤ total s.bal := total_nodeTxWith_le nodeFee s s2 src newAcct mainOk h
+
+/-- **No transaction raises the sum of all balances.** -/
+theorem execTx_total_le (fuel : Nat) (w : World) (tx : Tx) :
+    total (execTx fuel w tx).1.st.bal ≤ total w.st.bal := by
+  cases tx with
+  | operator src dataOk targets =>
+    simp only [execTx]
+    cases hf : processFee w.st.bal src with
+    | none => exact Nat.le_refl _
+    | some b1 =>
+      have h1 := processFee_total _ _ _ hf
+      simp only
+      split
+      · simp only; omega
+      · cases hc : changeAssets b1 src targets with
+        | none => simp only; omega
+        | some b2 => have := changeAssets_total src targets b1 b2 hc; simp only; omega
+  | apply src id typ stake account keysOk =>
+    simp only [execTx]
+    cases hf : processFee w.st.bal src with
+    | none => exact Nat.le_refl _
+    | some b1 =>
+      have h1 := processFee_total _ _ _ hf
+      simp only
+      cases hm : minerApply { w.st with bal := b1 } src id typ stake account keysOk with
+      | none => simp only; omega
+      | some s2 => have := total_minerApply_le _ _ _ _ _ _ _ _ hm; simp only at this ⊢; omega
+  | addStake src id delta =>
+    simp only [execTx]
+    cases hf : processFee w.st.bal src with
+    | none => exact Nat.le_refl _
+    | some b1 =>
+      have h1 := processFee_total _ _ _ hf
+      simp only
+      cases hm : minerAdd { w.st with bal := b1 } src id delta with
+      | none => simp only; omega
+      | some s2 => have := total_minerAdd_le _ _ _ _ _ hm; simp only at this ⊢; omega
+  | refund src id amount signed =>
+    simp only [execTx]
+    cases hf : processFee w.st.bal src with
+    | none => exact Nat.le_refl _
+    | some b1 =>
+      have h1 := processFee_total _ _ _ hf
+      simp only
+      cases hm : minerRefund w.code { w.st with bal := b1 } src id amount signed with
+      | none => simp only; omega
+      | some p =>
+        obtain ⟨s2, pend⟩ := p
+        have := bal_minerRefund _ _ _ _ _ _ _ _ hm
+        simp only at this ⊢
+        rw [this]; omega
+  | node src newAcct mainOk =>
+    simp only [execTx]
+    cases hf : processFee w.st.bal src with
+    | none => exact Nat.le_refl _
+    | some b1 =>
+      have h1 := processFee_total _ _ _ hf
+      simp only
+      cases hm : nodeTx { w.st with bal := b1 } src newAcct mainOk with
+      | none => simp only; omega
+      | some s2 => have := total_nodeTx_le _ _ _ _ _ hm; simp only at this ⊢; omega
+  | contract t =>
+    simp only [execTx]
+    have hb := contractBefore_total w.st.bal t
+    cases hcb : contractBefore w.st.bal t with
+    | inl p =>
+      obtain ⟨status, b⟩ := p
+      rw [hcb] at hb
+      simp only [beforeBal] at hb
+      simp only; omega
+    | inr p =>
+      obtain ⟨b1, raw, v⟩ := p
+      rw [hcb] at hb
+      simp only [beforeBal] at hb
+      simp only
+      have hx := contractExecute_total_le w.code fuel t raw v { w.st with bal := b1 }
+      simp only at hx
+      split
+      · simp only; omega
+      · simp only
+        split
+        · simp only [revertTo]; rw [deductGasFee_total]; omega
+        · simp only [revertTo]; omega
+
 /-! ### blocks -/
 
-/-- stake locked / node fees debited by a list of transactions with the given outcomes -/
-def lockedSum : List Tx → List Status → Nat
-  | t :: ts, s :: ss => outflowBy t s + lockedSum ts ss
+/-- node fees debited by a list of transactions with the given outcomes -/
+def nodeFeeSum : List Tx → List Status → Nat
+  | t :: ts, s :: ss => nodeFeeBy t s + nodeFeeSum ts ss
   | _, _ => 0
 
 theorem execTxs_mass (fuel : Nat) : ∀ (txs : List Tx) (w : World),
-    mass (execTxs fuel w txs).1.st + lockedSum txs (execTxs fuel w txs).2 = mass w.st := by
+    wmass (execTxs fuel w txs).1 + (nodeFeeSum txs (execTxs fuel w txs).2 : Int) = wmass w := by
   intro txs
   induction txs with
-  | nil => intro w; simp [execTxs, lockedSum]
+  | nil => intro w; simp [execTxs, nodeFeeSum]
   | cons t ts ih =>
     intro w
-    simp only [execTxs, lockedSum]
+    simp only [execTxs, nodeFeeSum]
     have h1 := execTx_mass fuel w t
     have h2 := ih (execTx fuel w t).1
     omega
+
+theorem execTxs_total_le (fuel : Nat) : ∀ (txs : List Tx) (w : World),
+    total (execTxs fuel w txs).1.st.bal ≤ total w.st.bal := by
+  intro txs
+  induction txs with
+  | nil => intro w; simp [execTxs]
+  | cons t ts ih =>
+    intro w
+    simp only [execTxs]
+    exact Nat.le_trans (ih _) (execTx_total_le fuel w t)
 
 theorem execTxs_length (fuel : Nat) : ∀ (txs : List Tx) (w : World), (execTxs fuel w txs).2.length = txs.length := by
   intro txs
   induction txs with
   | nil => intro w; simp [execTxs]
   | cons t ts ih => intro w; simp only [execTxs, List.length_cons]; rw [ih]
-
-theorem execBlock_mass (fuel : Nat) (w : World) (txs : List Tx) :
-    mass (execBlock fuel w txs).1.st + lockedSum txs (execBlock fuel w txs).2 = mass w.st := by
-  unfold execBlock
-  simp only
-  have h := execTxs_mass fuel txs { w with ctx := { gasUsed := none } }
-  unfold mass at h ⊢
-  simp only at h ⊢
-  exact h
 
 /-! ### end of block -/
 
@@ -503,14 +909,6 @@ theorem escrow_split : ∀ (e : Escrow) (h : Nat),
     · simp only [c, if_true, List.map_cons, List.sum_cons, escrowTotal]; omega
     · simp only [c, if_false, escrowTotal]; omega
 
-theorem escrowTotal_append : ∀ (e f : Escrow), escrowTotal (e ++ f) = escrowTotal e + escrowTotal f := by
-  intro e f
-  induction e with
-  | nil => simp [escrowTotal]
-  | cons p r ih =>
-    obtain ⟨k, a, v⟩ := p
-    simp only [List.cons_append, escrowTotal, ih]; omega
-
 /-- balances + escrow grow by exactly what the block added to the escrow; balances alone by exactly what was due -/
 theorem afterBlock_exact (b : Bal) (e : Escrow) (h : Nat) (added : Escrow) :
     total (afterBlock b e h added).1 = total b + ((dueAt (e ++ added) h).map (·.2)).sum ∧
@@ -524,5 +922,33 @@ theorem afterBlock_exact (b : Bal) (e : Escrow) (h : Nat) (added : Escrow) :
   constructor
   · exact h1
   · omega
+
+theorem stakeSum_markVisible : ∀ r : Reg, stakeSum (markVisible r) = stakeSum r := by
+  intro r
+  induction r with
+  | nil => rfl
+  | cons m r ih => simp only [markVisible, stakeSum, ih]
+
+/-- A whole block: the conserved quantity grows by exactly the block reward and shrinks by the node fees. -/
+theorem execBlock_mass (fuel : Nat) (w : World) (h : Nat) (txs : List Tx) (rewards : Escrow) :
+    mass (execBlock fuel w h txs rewards).1.st + (nodeFeeSum txs (execBlock fuel w h txs rewards).2 : Int)
+      = mass w.st + (escrowTotal rewards : Int) := by
+  unfold execBlock
+  simp only
+  generalize hw0 : ({ w with ctx := { gasUsed := none, pending := [] }, st := { w.st with height := h } } : World) = w0
+  have hm := execTxs_mass fuel txs w0
+  have h0 : wmass w0 = mass w.st := by
+    subst hw0
+    unfold wmass mass
+    simp [escrowTotal]
+  rw [h0] at hm
+  generalize execTxs fuel w0 txs = r at hm ⊢
+  have ha := (afterBlock_exact r.1.st.bal r.1.st.escrow h (r.1.ctx.pending ++ rewards)).2
+  have hp := escrowTotal_append r.1.ctx.pending rewards
+  unfold wmass at hm
+  unfold mass at hm ⊢
+  simp only
+  rw [stakeSum_markVisible]
+  omega
 
 end Rangers.Ledger
